@@ -171,7 +171,7 @@ func corsRequests(hostile bool, c corsCfg) []corsReq {
 	}
 	var named []string
 	for _, h := range c.Headers {
-		if h != "*" {
+		if h != "*" && h != "" {
 			named = append(named, h)
 			addH(h)
 			addH(strings.ToLower(h))
